@@ -6,6 +6,7 @@ package rules
 
 import (
 	"fmt"
+	"go/ast"
 	"go/constant"
 	"go/token"
 	"go/types"
@@ -93,12 +94,51 @@ func liveReachable(m *model.Model) map[*ssa.Function]bool {
 	return reach
 }
 
+// enumConsts: the enumerators of the named type t — the constants of that type declared in the
+// largest const block that declares any (the enumeration itself; a sentinel declared on its own,
+// `const noForm form = 0xff`, is not one of them). Falls back to every constant of the type.
 func enumConsts(m *model.Model, t types.Type) []int64 {
-	var out []int64
 	n, ok := t.(*types.Named)
 	if !ok {
 		return nil
 	}
+	var best []int64
+	for _, f := range m.SourceFiles() {
+		for _, d := range f.Decls {
+			gd, ok := d.(*ast.GenDecl)
+			if !ok || gd.Tok != token.CONST {
+				continue
+			}
+			var vals []int64
+			for _, sp := range gd.Specs {
+				vs, ok := sp.(*ast.ValueSpec)
+				if !ok {
+					continue
+				}
+				for _, nm := range vs.Names {
+					var c *types.Const
+					if o, ok := m.Dec.TypesInfo.Defs[nm].(*types.Const); ok {
+						c = o
+					} else if o, ok := m.Ctx.TypesInfo.Defs[nm].(*types.Const); ok {
+						c = o
+					}
+					if c != nil && types.Identical(c.Type(), t) {
+						if v, ok := constant.Int64Val(c.Val()); ok {
+							vals = append(vals, v)
+						}
+					}
+				}
+			}
+			if len(vals) > len(best) {
+				best = vals
+			}
+		}
+	}
+	if len(best) >= 2 {
+		sort.Slice(best, func(i, j int) bool { return best[i] < best[j] })
+		return best
+	}
+	var out []int64
 	sc := n.Obj().Pkg().Scope()
 	for _, name := range sc.Names() {
 		if c, ok := sc.Lookup(name).(*types.Const); ok && types.Identical(c.Type(), t) {
@@ -149,7 +189,7 @@ func runPanic(m *model.Model, s *ob.Set) {
 			}
 			// unreachable behind an exhaustive switch
 			if ok, what := behindExhaustiveSwitch(m, fn, b); ok {
-				s.Ok(R, name+"/unreachable", pos, "all enumerators of "+what+" are handled before this point (ENUM keeps the field within them)")
+				s.Ok(R, name+"/unreachable", pos, "all values of "+what+" are handled before this point (for an enumeration, ENUM keeps the field within its enumerators)")
 				continue
 			}
 			msg := "<dynamic>"
@@ -188,6 +228,7 @@ func runPanic(m *model.Model, s *ob.Set) {
 func behindExhaustiveSwitch(m *model.Model, fn *ssa.Function, b *ssa.BasicBlock) (bool, string) {
 	type key struct{ v string }
 	seen := map[string]map[int64]bool{}
+	remSeen := map[string]map[int64]bool{}
 	types_ := map[string]types.Type{}
 	for _, gb := range fn.Blocks {
 		if len(gb.Instrs) == 0 {
@@ -203,6 +244,30 @@ func behindExhaustiveSwitch(m *model.Model, fn *ssa.Function, b *ssa.BasicBlock)
 		}
 		k, ok := model.ConstInt(bo.Y)
 		if !ok {
+			continue
+		}
+		// x % k with every residue handled (-(k-1)..k-1 for a signed x, 0..k-1 for an unsigned one)
+		if rem, ok := stripConv(bo.X).(*ssa.BinOp); ok && rem.Op == token.REM && m.EdgeDominates(gb, 1, b) {
+			if kmod, ok := model.ConstInt(rem.Y); ok && kmod > 0 && kmod <= 16 {
+				rk := "rem:" + exprKey(m, rem.X, 4) + "%" + fmt.Sprint(kmod)
+				if remSeen[rk] == nil {
+					remSeen[rk] = map[int64]bool{}
+				}
+				remSeen[rk][k] = true
+				lo := int64(0)
+				if bt, ok := rem.X.Type().Underlying().(*types.Basic); ok && bt.Info()&types.IsUnsigned == 0 {
+					lo = -(kmod - 1)
+				}
+				all := true
+				for v := lo; v <= kmod-1; v++ {
+					if !remSeen[rk][v] {
+						all = false
+					}
+				}
+				if all {
+					return true, fmt.Sprintf("the remainder modulo %d", kmod)
+				}
+			}
 			continue
 		}
 		if _, isNamed := bo.X.Type().(*types.Named); !isNamed {
@@ -309,6 +374,11 @@ func enumValue(m *model.Model, fn *ssa.Function, at *ssa.Store, v ssa.Value, fie
 		if lf, ok := m.LoadOfDecField(x); ok && lf.Field == field {
 			return true, "" // copy of the same field of a Decimal
 		}
+		// an entry of a package-level table of that type (a form looked up by operand forms):
+		// every entry is an enumerator, or a sentinel that a test in front of the store excludes
+		if ok, why, isTab := enumTableLookup(m, fn, at, x, ft); isTab {
+			return ok, why
+		}
 	case *ssa.Call:
 		if cal := x.Call.StaticCallee(); cal != nil && m.InDecimalPkg(cal) && cal.Name() == "makeAcc" {
 			return true, ""
@@ -358,4 +428,131 @@ func enumValue(m *model.Model, fn *ssa.Function, at *ssa.Store, v ssa.Value, fie
 		}
 	}
 	return false, fmt.Sprintf("the value stored is not a declared %s, a copy of the field, makeAcc(…), a parameter of that type or a range-checked value", ft)
+}
+
+// enumTableLookup: v loads an element of a package-level array/slice variable whose leaf element
+// type is ft and which nothing writes. ok if every constant in its initialiser is an enumerator of
+// ft, or is excluded at the store by a dominating comparison of v with it.
+func enumTableLookup(m *model.Model, fn *ssa.Function, at *ssa.Store, v *ssa.UnOp, ft types.Type) (ok bool, why string, isTable bool) {
+	if v.Op != token.MUL {
+		return false, "", false
+	}
+	var g *ssa.Global
+	addr := v.X
+	for hops := 0; hops < 4; hops++ {
+		switch a := addr.(type) {
+		case *ssa.IndexAddr:
+			addr = a.X
+			continue
+		case *ssa.Global:
+			g = a
+		case *ssa.UnOp:
+			if gg, ok := a.X.(*ssa.Global); ok {
+				g = gg
+			}
+		}
+		break
+	}
+	if g == nil || !types.Identical(v.Type(), ft) {
+		return false, "", false
+	}
+	// the variable's initialiser
+	var lit ast.Expr
+	for _, f := range m.SourceFiles() {
+		for _, d := range f.Decls {
+			gd, ok := d.(*ast.GenDecl)
+			if !ok || gd.Tok != token.VAR {
+				continue
+			}
+			for _, sp := range gd.Specs {
+				vs := sp.(*ast.ValueSpec)
+				for i, nm := range vs.Names {
+					if nm.Name == g.Name() && i < len(vs.Values) {
+						lit = vs.Values[i]
+					}
+				}
+			}
+		}
+	}
+	if lit == nil {
+		return false, "a table without an initialiser", true
+	}
+	vals := map[int64]bool{}
+	nonConst := false
+	ast.Inspect(lit, func(n ast.Node) bool {
+		e, ok := n.(ast.Expr)
+		if !ok {
+			return true
+		}
+		if kv, ok := n.(*ast.KeyValueExpr); ok {
+			// keys are indexes
+			ast.Inspect(kv.Value, func(n2 ast.Node) bool {
+				if e2, ok := n2.(ast.Expr); ok {
+					if tv, ok := m.Dec.TypesInfo.Types[e2]; ok && tv.Value != nil && types.Identical(tv.Type, ft) {
+						if k, ok := constant.Int64Val(tv.Value); ok {
+							vals[k] = true
+						}
+						return false
+					}
+				}
+				return true
+			})
+			return false
+		}
+		if tv, ok := m.Dec.TypesInfo.Types[e]; ok && !tv.IsType() && types.Identical(tv.Type, ft) {
+			if tv.Value == nil {
+				if _, isLit := e.(*ast.CompositeLit); !isLit {
+					nonConst = true
+				}
+				return true
+			}
+			if k, ok := constant.Int64Val(tv.Value); ok {
+				vals[k] = true
+			}
+			return false
+		}
+		return true
+	})
+	if nonConst || len(vals) == 0 {
+		return false, "a table whose entries are not all constants", true
+	}
+	enum := map[int64]bool{}
+	for _, c := range enumConsts(m, ft) {
+		enum[c] = true
+	}
+	for k := range vals {
+		if enum[k] {
+			continue
+		}
+		// excluded at the store: an `v == k` test whose false edge dominates it (or != true edge)
+		excluded := false
+		for _, gb := range fn.Blocks {
+			if len(gb.Instrs) == 0 {
+				continue
+			}
+			ifi, ok := gb.Instrs[len(gb.Instrs)-1].(*ssa.If)
+			if !ok {
+				continue
+			}
+			bo, ok := ifi.Cond.(*ssa.BinOp)
+			if !ok || (bo.Op != token.EQL && bo.Op != token.NEQ) {
+				continue
+			}
+			c, isC := model.ConstInt(bo.Y)
+			if !isC || c != k || (stripConv(bo.X) != ssa.Value(v) && !structEq(stripConv(bo.X), v, 4)) {
+				continue
+			}
+			edge := 1
+			if bo.Op == token.NEQ {
+				edge = 0
+			}
+			if m.EdgeDominates(gb, edge, at.Block()) {
+				excluded = true
+			}
+		}
+		if !excluded {
+			return false, fmt.Sprintf("the table %s holds the value %d, which is not an enumerator of %s and is not excluded by a test in front of the store", g.Name(), k, ft), true
+		}
+	}
+	return true, "", true
 }
